@@ -35,7 +35,10 @@ def flags_for(opts: Dict[str, Any]) -> Any:
     if key not in _FLAGS:
         argv = ['--threadless']
         for k_, v in opts.items():
-            argv += ['--' + k_.replace('_', '-'), str(v)]
+            if v is True:
+                argv += ['--' + k_.replace('_', '-')]      # a switch (e.g. enable_conn_pool)
+            else:
+                argv += ['--' + k_.replace('_', '-'), str(v)]
         _FLAGS[key] = K.make_flags(argv)
     return _FLAGS[key]
 
@@ -281,8 +284,10 @@ def cases(draw: Any, mode: str, big: int, tcp: bool = False) -> Dict[str, Any]:
         fl['server_recvbuf_size'] = draw(BUF)
     if draw(st.booleans()):
         fl['max_sendbuf_size'] = draw(BUF)
-    c['flags'] = fl
     tiny = any(v <= 7 for v in fl.values())
+    if draw(st.integers(0, 4)) == 0:
+        fl['enable_conn_pool'] = True      # upstream connections acquired from / released to the worker's pool
+    c['flags'] = fl
     if tiny:
         big = min(big, 6000)     # one byte per recv()/send(): keep the run bounded
     c['head_segs'] = draw(st.lists(st.sampled_from([1, 2, 5, 10, 17, 40, 1000]), max_size=6))
@@ -300,7 +305,13 @@ def cases(draw: Any, mode: str, big: int, tcp: bool = False) -> Dict[str, Any]:
         fin = draw(st.sampled_from(['none', 'none', 'none', 'o_close', 'c_shut', 'c_close_on_eof']))
     else:
         c['req'] = draw(G.request_spec(form='absolute', framings=('none', 'cl'), max_body=100,
-                                       methods=st.sampled_from([b'GET', b'GET', b'POST', b'PUT', b'HEAD']), versions=(b'HTTP/1.1',)))
+                                       methods=st.sampled_from([b'GET', b'GET', b'POST', b'PUT', b'HEAD']),
+                                       versions=(b'HTTP/1.1', b'HTTP/1.1', b'HTTP/1.0')))
+        # persistence as the client asks for it: HTTP/1.0, Connection: close / keep-alive / nothing (what is relayed must not
+        # depend on it)
+        conn = draw(st.sampled_from([None, None, b'close', b'keep-alive', b'Close']))
+        if conn is not None and not any(h[0].lower() == b'connection' for h in c['req']['headers']):
+            c['req']['headers'].append([b'Connection', conn, 0])
         is_head = c['req']['method'] == b'HEAD'
         if is_head:
             c['req']['framing'], c['req']['body'] = 'none', b''
@@ -363,8 +374,11 @@ def run_shard(spec: Dict[str, Any], seed: int, acc: Any) -> None:
             labs.append('had-short-or-blocked-send')
         if c['mode'] == 'http':
             labs += ['resp:' + _resp_kind(x) for x in c['resps']]
+            hd = {h[0].lower(): h[1].lower() for h in c['req']['headers']}
+            labs.append('req:' + ('http/1.0' if c['req']['version'] == b'HTTP/1.0' else 'connection-' + hd[b'connection'].decode()
+                                  if b'connection' in hd else 'http/1.1'))
         if c.get('flags'):
-            labs.append('flags:custom-buffers')
+            labs.append('flags:conn-pool' if c['flags'].get('enable_conn_pool') else 'flags:custom-buffers')
         acc.case(c, nt, labels=labs)
         acc.size('max_bytes_moved', info['moved'])
         acc.size('max_iterations', info['iters'])
